@@ -7,7 +7,7 @@ import (
 	zz "rare/pkg/zzverif"
 )
 
-var zzHarnesses = map[string]func(){"H08Fn": H08Fn}
+var zzHarnesses = map[string]func(){"H08Fn": H08Fn, "H08Compile": H08Compile, "H08CompileCall": H08CompileCall, "H08Ctx": H08Ctx}
 
 type zzCtx struct {
 	vals []string
@@ -83,7 +83,15 @@ func zzValue() string {
 func zzInt() int64 {
 	v := zz.Int64()
 	if !zzAllInts {
-		zz.Assume((v > -1000 && v < 1000) || v > 9223372036854775807-3 || v < -9223372036854775807+3)
+		switch zz.Choice(3) {
+		case 0:
+			zz.Assume(v > -1000)
+			zz.Assume(v < 1000)
+		case 1:
+			zz.Assume(v > 9223372036854775807-3)
+		default:
+			zz.Assume(v < -9223372036854775807+3)
+		}
 	}
 	return v
 }
@@ -123,5 +131,98 @@ func H08Fn() {
 	if stage != nil {
 		_ = stage(ctx)
 	}
+	zz.Reached()
+}
+
+
+// zzAlphabet: the bytes a template is drawn from: every syntactic class of
+// the compiler and the argument splitter, a digit, a letter, helper-name
+// characters, and one non-ASCII lead byte.
+var zzAlphabet = []byte{'{', '}', '\\', '"', ' ', 'a', '1', '$', '@', '!', '-', 0xc3}
+
+// H08Compile: compiling any template over the alphabet returns (a usable
+// builder and/or errors) and evaluating the result returns; nothing panics.
+func H08Compile() {
+	zz.AbstractFloatText(true)
+	zz.AbstractFloatArith(true)
+	zz.OpaqueParseFloat(true)
+	n := zz.Len(zzMaxTemplate)
+	t := zz.Bytes(n)
+	for i := range t {
+		ok := false
+		for _, c := range zzAlphabet {
+			if t[i] == c {
+				ok = true
+			}
+		}
+		zz.Assume(ok)
+	}
+	zz.LoopBound(4 * zzMaxTemplate)
+	kb := NewStdKeyBuilderEx(zz.Choice(2) == 0)
+	c, errs := kb.Compile(string(t))
+	zz.Assert(c != nil || errs != nil, "Compile returned neither a builder nor errors")
+	if c != nil {
+		ctx := &zzCtx{vals: []string{zz.String(1), zz.IntStr(zzInt())}, key: "v"}
+		_ = c.BuildKey(ctx)
+	}
+	if errs != nil {
+		zz.Assert(len(errs.Errors) > 0, "CompilerErrors without an error")
+	}
+	zz.Reached()
+}
+
+func zzAlpha(n int) []byte {
+	t := zz.Bytes(n)
+	for i := range t {
+		ok := false
+		for _, c := range zzAlphabet {
+			if t[i] == c {
+				ok = true
+			}
+		}
+		zz.Assume(ok)
+	}
+	return t
+}
+
+// H08CompileCall: a helper call with arbitrary short arguments, compiled and
+// evaluated through the real Compile (nested argument compilation, error
+// inheritance, optimisation on and off).
+func H08CompileCall() {
+	zz.AbstractFloatText(true)
+	zz.AbstractFloatArith(true)
+	zz.OpaqueParseFloat(true)
+	names := []string{"$", "sumi", "divi", "repeat", "!", "@for", "@map", "substr", "nosuchfn"}
+	nm := names[zz.Choice(len(names))]
+	zz.Note(nm)
+	t := "{" + nm
+	na := 1 + zz.Choice(zzMaxCallArgs)
+	snippets := []string{"", "{0}", "{1}", "{k}", "a", "1", "-1", "0", "\"a b\"", "\"\"", "{", "}", "\\", "{$ {0} {1}}"}
+	for i := 0; i < na; i++ {
+		t += " " + snippets[zz.Choice(len(snippets))]
+	}
+	t += "}"
+	zz.LoopBound(24)
+	kb := NewStdKeyBuilderEx(zz.Choice(2) == 0)
+	c, errs := kb.Compile(t)
+	zz.Assert(c != nil || errs != nil, "Compile returned neither a builder nor errors")
+	if c != nil {
+		ctx := &zzCtx{vals: []string{zz.String(1), zz.IntStr(zz.Int64())}, key: "v"}
+		_ = c.BuildKey(ctx)
+	}
+	zz.Reached()
+}
+
+// H08Ctx: the context implementations answer every index and key.
+func H08Ctx() {
+	i := zz.Int()
+	arr := &KeyBuilderContextArray{Elements: []string{zz.String(1), zz.String(1)}}
+	got := arr.GetMatch(i)
+	want := ""
+	if i >= 0 && i < 2 {
+		want = arr.Elements[i]
+	}
+	zz.Assert(got == want, "KeyBuilderContextArray.GetMatch out of range is not empty")
+	zz.Assert(arr.GetKey(zz.String(1)) == "", "missing key is not empty")
 	zz.Reached()
 }
